@@ -439,10 +439,10 @@ var $methodSet = typ => {
         var mset = [];
 
         current.forEach(e => {
-            if (seen[e.typ.string]) {
+            if (seen[e.typ.id]) {
                 return;
             }
-            seen[e.typ.string] = true;
+            seen[e.typ.id] = true;
 
             if (e.typ.named) {
                 mset = mset.concat(e.typ.methods);
@@ -742,7 +742,8 @@ var $assertType = (value, type, returnTuple) => {
     } else if (!isInterface) {
         ok = value.constructor === type;
     } else {
-        var valueTypeString = value.constructor.string;
+        // The cache is keyed by type identity: distinct types may print the same.
+        var valueTypeString = value.constructor.id;
         ok = type.implementedBy[valueTypeString];
         if (ok === undefined) {
             ok = true;
